@@ -92,6 +92,22 @@ fn boundary_values() -> Vec<Vec<Amf0Value>> {
     for i in 0..40 { m.insert(format!("p{}", i), if i % 3 == 0 { Amf0Value::Number(i as f64) } else if i % 3 == 1 { Amf0Value::Utf8String(format!("v{}", i)) } else { Amf0Value::StrictArray(vec![Amf0Value::Null; i % 5]) }); }
     out.push(vec![Amf0Value::Object(m.clone()), Amf0Value::Object(HashMap::new()), Amf0Value::StrictArray(vec![Amf0Value::Object(m)])]);
     for d in [1usize, 2, 10, 127, 128] { out.push(vec![nest(0, d)]); out.push(vec![nest(1, d)]); }
+    // values that have no AMF0 encoding (empty / over-long property name, over-long string) at every kind of position:
+    // top level, object in object, in an array, object in an array, array in an object (validation must reach all of them)
+    let obj = |k: String, v: Amf0Value| { let mut m = HashMap::new(); m.insert(k, v); Amf0Value::Object(m) };
+    let bads: Vec<Amf0Value> = vec![obj(String::new(), Amf0Value::Number(1.0)), obj("n".repeat(65536), Amf0Value::Null), Amf0Value::Utf8String("s".repeat(65536)), Amf0Value::Utf8String("é".repeat(32768))];
+    for b in bads {
+        out.push(vec![b.clone()]);
+        out.push(vec![obj("o".into(), b.clone())]);
+        out.push(vec![Amf0Value::StrictArray(vec![Amf0Value::Null, b.clone()]), Amf0Value::Boolean(true)]);
+        out.push(vec![Amf0Value::StrictArray(vec![obj("in".into(), b.clone())])]);
+        out.push(vec![obj("arr".into(), Amf0Value::StrictArray(vec![b.clone()])), Amf0Value::Null]);
+    }
+    // multi-byte characters at every alignment relative to typical internal block sizes
+    for pad in 0..4usize { for total in [4096usize, 8192, 12288] {
+        let s = format!("{}{}", "a".repeat(pad), "€".repeat((total + 8) / 3));
+        out.push(vec![Amf0Value::Utf8String(s.clone())]); out.push(vec![obj(s, Amf0Value::Null)]);
+    } }
     out
 }
 fn c04() {
